@@ -724,7 +724,7 @@ Qed.
 Lemma entry_enc_lt e : wf_entry e -> nlen (encode e) < 2 ^ 64.
 Proof.
   intros H. pose proof (entry_size_le_upper_limit_proved e H) as L.
-  destruct H as (_ & _ & _ & _ & _ & _ & _ & _ & Hc).
+  destruct H as [(_ & _ & _ & _ & _ & _ & _ & _ & Hc) _].
   unfold size_upper_limit in L. change entry_non_cmd_fields_size with 128 in L.
   change colfer_size_max with 8796093022208 in Hc. change (2 ^ 64) with 18446744073709551616. lia.
 Qed.
